@@ -411,12 +411,70 @@ theorem no_projection_retains_more {α : Type} [Field α] [LinearOrder α] [IsSt
     _ = ∑ i : Fin k, m.sigma.getD i 0 * m.sigma.getD i 0 :=
         Finset.sum_congr rfl fun i _ => (hlead i).symm
 
+/-- **… also when the solver returned fewer than the `k` requested pairs** (its cut-off drops the
+pairs whose variance is below 2.2e-10 of the largest): `r ≤ k` components carrying the `r` leading
+eigenvalues.  Every projection on `k` orthonormal directions `Q` — `k` the REQUESTED embedding size,
+not the number of returned rows — retains at most what `predict(X)` retains plus the eigenvalues
+`lam_r … lam_{k-1}` of the dropped directions (zero when the dropped pairs have zero variance, e.g.
+exactly rank-deficient records). -/
+theorem no_projection_retains_more_dropped {α : Type} [Field α] [LinearOrder α]
+    [IsStrictOrderedRing α] (m : Model α) (X : List (List α)) (n r k p : Nat) (hX : Shape X n p)
+    (hW : Shape m.embedding r p) (hμ : m.mean.length = p) (hr : r ≤ k) (hk : k ≤ p)
+    (U : Matrix (Fin p) (Fin p) α) (lam : Fin p → α) (hU : U * Uᵀ = 1)
+    (hS : (toM X n p - rowConst n (toV m.mean p))ᵀ * (toM X n p - rowConst n (toV m.mean p))
+          = Uᵀ * diagonal lam * U)
+    (hmono : ∀ i j : Fin p, i ≤ j → lam j ≤ lam i)
+    (hlead : ∀ i : Fin r, m.sigma.getD i 0 * m.sigma.getD i 0 = lam (Fin.castLE (hr.trans hk) i))
+    (hV : toM m.embedding r p * (toM m.embedding r p)ᵀ = 1)
+    (hc : ((toM X n p - rowConst n (toV m.mean p))ᵀ * (toM X n p - rowConst n (toV m.mean p)))
+            * (toM m.embedding r p)ᵀ
+          = (toM m.embedding r p)ᵀ * diagonal fun i : Fin r => m.sigma.getD i 0 * m.sigma.getD i 0)
+    (Q : Matrix (Fin k) (Fin p) α) (hQ : Q * Qᵀ = 1) :
+    trace (((toM X n p - rowConst n (toV m.mean p)) * Qᵀ)ᵀ
+            * ((toM X n p - rowConst n (toV m.mean p)) * Qᵀ))
+      ≤ trace ((toM (transform m X) n r)ᵀ * toM (transform m X) n r)
+        + ∑ i : Fin k, (if (i : ℕ) < r then 0 else lam (Fin.castLE hk i)) := by
+  rw [transform_toM m X n r p hX hW hμ]
+  unfold transformM
+  rw [projected_scatter_diag _ _ _ hV hc, Matrix.trace_diagonal]
+  have e : ((toM X n p - rowConst n (toV m.mean p)) * Qᵀ)ᵀ
+        * ((toM X n p - rowConst n (toV m.mean p)) * Qᵀ)
+      = Q * ((toM X n p - rowConst n (toV m.mean p))ᵀ
+          * (toM X n p - rowConst n (toV m.mean p))) * Qᵀ := by
+    rw [Matrix.transpose_mul, Matrix.transpose_transpose]
+    simp only [Matrix.mul_assoc]
+  rw [e]
+  have hsplit : ∑ i : Fin k, lam (Fin.castLE hk i)
+      = ∑ i : Fin r, lam (Fin.castLE (hr.trans hk) i)
+        + ∑ i : Fin k, (if (i : ℕ) < r then 0 else lam (Fin.castLE hk i)) := by
+    have h1 : ∑ i : Fin r, lam (Fin.castLE (hr.trans hk) i)
+        = ∑ i : Fin k, (if (i : ℕ) < r then lam (Fin.castLE hk i) else 0) :=
+      (sum_ite_lt_eq (fun i : Fin k => lam (Fin.castLE hk i)) hr).symm
+    rw [h1, ← Finset.sum_add_distrib]
+    apply Finset.sum_congr rfl
+    intro i _
+    split <;> simp
+  calc trace (Q * _ * Qᵀ) ≤ ∑ i : Fin k, lam (Fin.castLE hk i) :=
+        ky_fan _ U lam hU hS hmono hk Q hQ
+    _ = _ := by
+        rw [hsplit]
+        congr 1
+        exact Finset.sum_congr rfl fun i _ => (hlead i).symm
+
 /-- non-vacuity: `S = diag(2, 1)` with `U = 1`, the leading axis `W = (1 0)` against `Q = (0 1)` -/
 example : (1 : Matrix (Fin 2) (Fin 2) Rat) * (1 : Matrix (Fin 2) (Fin 2) Rat)ᵀ = 1 ∧
     (!![1, 0] : Matrix (Fin 1) (Fin 2) Rat) * (!![1, 0] : Matrix (Fin 1) (Fin 2) Rat)ᵀ = 1 ∧
     (!![0, 1] : Matrix (Fin 1) (Fin 2) Rat) * (!![0, 1] : Matrix (Fin 1) (Fin 2) Rat)ᵀ = 1 := by
   refine ⟨by simp, ?_, ?_⟩ <;>
     (ext i j; fin_cases i; fin_cases j; simp [Matrix.mul_apply, Fin.sum_univ_two])
+
+/-- non-vacuity of the dropped-pairs form: `S = diag(2, 0)` (rank one), `r = 1` returned row
+`W = (1 0)` for `k = 2` requested pairs -/
+example : (!![1, 0] : Matrix (Fin 1) (Fin 2) Rat) * (!![1, 0] : Matrix (Fin 1) (Fin 2) Rat)ᵀ = 1 ∧
+    (!![2, 0; 0, 0] : Matrix (Fin 2) (Fin 2) Rat) * (!![1, 0] : Matrix (Fin 1) (Fin 2) Rat)ᵀ
+      = (!![1, 0] : Matrix (Fin 1) (Fin 2) Rat)ᵀ * diagonal (fun _ : Fin 1 => (2 : Rat)) := by
+  constructor <;>
+    (ext i j; fin_cases i <;> fin_cases j <;> simp [Matrix.mul_apply, Fin.sum_univ_two])
 
 /-- **the leading rows of a certificate are a certificate** (what the dense branch of `leading_svd`
 keeps): if `V` (`r` orthonormal rows) satisfies `C Vᵀ = Vᵀ diag(s)` then so do its first `k` rows
@@ -451,6 +509,127 @@ theorem take_rows_toM {α : Type} [Field α] (vt : List (List α)) (r k p : Nat)
 example : toM (α := Rat) ([[1, 0], [0, 1]].take 1) 1 2
     = (toM (α := Rat) [[1, 0], [0, 1]] 2 2).submatrix (Fin.castLE (by decide : 1 ≤ 2)) id :=
   take_rows_toM _ 2 1 2 (by decide)
+
+/-! ## end to end: `fit` + the solver's certificate on the matrix `fit` hands to it ⇒ the clauses
+
+The theorems above take a fitted `Model` and the certificate as separate hypotheses; the two below
+chain them through `fit` itself (`fit_ok_iff`, `fit_mean_is_column_mean`, `center_toM`,
+`whitened_embedding`): the certificate is stated about `toM (center X (colMeanL lay p X))` — the very
+argument `fit` passes to the solver parameter — and about the pair `(σ0, vt)` that call returned;
+`n` is the number of records (`m.nSamples = n` is derived, not assumed).  Assumptions that remain:
+the certificate (external solver; evaluated per fit by the oracle), "the floor does not act"
+(`fl ≤ s` for the solver's values — where it acts the reported variance is the floor's, not the
+data's: finding C18-sigma-floor-misreports-variance), and for whitening `sqrt(n-1)² = n-1`
+(`Transc.sqrt` carries no laws). -/
+
+/-- the floor leaves values at or above it unchanged -/
+theorem floorSigma_id {α : Type} [Field α] [LinearOrder α] [IsStrictOrderedRing α] (fl : α)
+    (σ : List α) (h : ∀ s ∈ σ, fl ≤ s) : floorSigma fl σ = σ := by
+  unfold floorSigma
+  conv_rhs => rw [← List.map_id σ]
+  apply List.map_congr_left
+  intro x hx
+  simp [not_lt.mpr (h x hx)]
+
+example : floorSigma (1/100 : Rat) [3, 1] = [3, 1] := floorSigma_id _ _ (by
+  intro s hs; simp at hs; rcases hs with rfl | rfl <;> norm_num)
+
+/-- **`fit` without whitening, end to end**: if `fit` succeeds, the solver was called on the centred
+records `center X (colMeanL lay p X)` and returned some `(σ0, vt)`; whenever that pair is a
+certificate for that matrix (`vt` has `r` orthonormal rows, `(XcᵀXc) vtᵀ = vtᵀ diag(σ0²)`) and no
+value is below the floor, the projected training records `predict(X)` have sample covariance
+`diag(explained_variance())` with the divisor `n − 1` of the `n` records. -/
+theorem fit_projected_cov {α ε : Type} [Field α] [LinearOrder α] [IsStrictOrderedRing α] [Transc α]
+    (fl : α) (svd : List (List α) → Nat → Except ε (List α × List (List α))) (k p n : Nat)
+    (lay : Layout) (X : List (List α)) (m : Model α) (hX : Shape X n p)
+    (hfit : fit fl svd k false lay p X = .ok m) :
+    ∃ σ0 vt, svd (center X (colMeanL lay p X)) k = .ok (σ0, vt) ∧ m.nSamples = n ∧
+      ∀ r, Shape vt r p → σ0.length = r → (∀ s ∈ σ0, fl ≤ s) →
+        toM vt r p * (toM vt r p)ᵀ = 1 →
+        ((toM (center X (colMeanL lay p X)) n p)ᵀ * toM (center X (colMeanL lay p X)) n p)
+            * (toM vt r p)ᵀ
+          = (toM vt r p)ᵀ * diagonal (fun i : Fin r => σ0.getD i 0 * σ0.getD i 0) →
+        (m.sigma = σ0 ∧ m.embedding = vt) ∧
+        (((n : α) - 1)⁻¹) • ((toM (transform m X) n r)ᵀ * toM (transform m X) n r)
+          = diagonal fun i : Fin r => (explainedVariance m).getD i 0 := by
+  have hn := hX.1
+  subst hn
+  obtain ⟨_, σ0, vt, hs, hm⟩ := (fit_ok_iff fl svd k p false lay X m).1 hfit
+  refine ⟨σ0, vt, hs, by rw [hm], ?_⟩
+  intro r hvt hσ hfl hV hc
+  have hμ : (colMeanL lay p X).length = p := (fit_mean_is_column_mean lay X _ p hX).1
+  have hid := floorSigma_id fl σ0 hfl
+  have hm' : m = ⟨vt, σ0, colMeanL lay p X, X.length⟩ := by rw [hm, hid]; simp
+  subst hm'
+  rw [(center_toM X _ _ p hX hμ).2] at hc
+  exact ⟨⟨rfl, rfl⟩, projected_cov_is_explained_variance
+    ⟨vt, σ0, colMeanL lay p X, X.length⟩ X _ r p hX hvt hμ hσ hV hc⟩
+
+/-- **`fit` with whitening, end to end**: same chain; the stored embedding is
+`diag(sqrt(n−1)/σ_i)·vt` (`whitened_embedding`), so with `sqrt(n−1)² = n−1`, a positive floor and no
+value below it the projected training records have identity sample covariance. -/
+theorem fit_whitened_cov {α ε : Type} [Field α] [LinearOrder α] [IsStrictOrderedRing α] [Transc α]
+    (fl : α) (svd : List (List α) → Nat → Except ε (List α × List (List α))) (k p n : Nat)
+    (lay : Layout) (X : List (List α)) (m : Model α) (hX : Shape X n p) (hfl0 : 0 < fl)
+    (hsqrt : Transc.sqrt ((n : α) - 1) * Transc.sqrt ((n : α) - 1) = (n : α) - 1)
+    (hn1 : (n : α) - 1 ≠ 0)
+    (hfit : fit fl svd k true lay p X = .ok m) :
+    ∃ σ0 vt, svd (center X (colMeanL lay p X)) k = .ok (σ0, vt) ∧ m.nSamples = n ∧
+      ∀ r, Shape vt r p → σ0.length = r → (∀ s ∈ σ0, fl ≤ s) →
+        toM vt r p * (toM vt r p)ᵀ = 1 →
+        ((toM (center X (colMeanL lay p X)) n p)ᵀ * toM (center X (colMeanL lay p X)) n p)
+            * (toM vt r p)ᵀ
+          = (toM vt r p)ᵀ * diagonal (fun i : Fin r => σ0.getD i 0 * σ0.getD i 0) →
+        (((n : α) - 1)⁻¹) • ((toM (transform m X) n r)ᵀ * toM (transform m X) n r) = 1 := by
+  have hn := hX.1
+  subst hn
+  obtain ⟨_, σ0, vt, hs, hm⟩ := (fit_ok_iff fl svd k p true lay X m).1 hfit
+  refine ⟨σ0, vt, hs, by rw [hm], ?_⟩
+  intro r hvt hσ hfl hV hc
+  have hμ : (colMeanL lay p X).length = p := (fit_mean_is_column_mean lay X _ p hX).1
+  have hid := floorSigma_id fl σ0 hfl
+  have hm' : m = ⟨whiten X.length vt σ0, σ0, colMeanL lay p X, X.length⟩ := by
+    rw [hm, hid]; simp
+  subst hm'
+  rw [(center_toM X _ _ p hX hμ).2] at hc
+  obtain ⟨hWs, hemb⟩ := whitened_embedding X.length vt σ0 r p hvt hσ
+  have hs0 : ∀ i : Fin r, σ0.getD i 0 ≠ 0 := by
+    intro i
+    have hi : (i : Nat) < σ0.length := by omega
+    rw [getD_lt _ _ _ hi]
+    exact ne_of_gt (lt_of_lt_of_le hfl0 (hfl _ (List.getElem_mem hi)))
+  exact whitened_cov_identity ⟨whiten X.length vt σ0, σ0, colMeanL lay p X, X.length⟩ X _ r p hX
+    hWs hμ (toM vt r p) (fun i => σ0.getD i 0) (Transc.sqrt ((X.length : α) - 1)) hsqrt hn1 hs0
+    hemb hV hc
+
+/-- non-vacuity of both: four centred records with scatter `diag(4, 4)`; the solver answers
+`σ0 = (2, 2)`, `vt = 1`; `fit` succeeds, the floor `1/100` does not act, the matrix handed to the
+solver is the records themselves (mean zero) and the pair is a certificate for it -/
+example : fit (α := Rat) (ε := String) (1/100) (fun _ _ => .ok ([2, 2], [[1, 0], [0, 1]])) 2 false .c 2
+    [[1, 1], [-1, -1], [1, -1], [-1, 1]]
+    = .ok ⟨[[1, 0], [0, 1]], [2, 2], [0, 0], 4⟩ := by
+  norm_num [fit, Pca.guard, floorSigma, colMeanL, colMean, vadd, List.zipWith, List.replicate,
+    List.foldl]
+
+example : center (α := Rat) [[1, 1], [-1, -1], [1, -1], [-1, 1]]
+      (colMeanL .c 2 [[1, 1], [-1, -1], [1, -1], [-1, 1]])
+    = [[1, 1], [-1, -1], [1, -1], [-1, 1]] := by
+  norm_num [center, vsub, colMeanL, colMean, vadd, List.zipWith, List.replicate, List.foldl]
+
+example : let X : Matrix (Fin 4) (Fin 2) Rat := toM [[1, 1], [-1, -1], [1, -1], [-1, 1]] 4 2
+    (Xᵀ * X) * (toM (α := Rat) [[1, 0], [0, 1]] 2 2)ᵀ
+      = (toM (α := Rat) [[1, 0], [0, 1]] 2 2)ᵀ
+        * diagonal fun i : Fin 2 => ([2, 2] : List Rat).getD i 0 * ([2, 2] : List Rat).getD i 0 := by
+  intro X
+  ext i j
+  fin_cases i <;> fin_cases j <;>
+    simp [X, toM, Matrix.mul_apply, Fin.sum_univ_four, Fin.sum_univ_two, Matrix.diagonal] <;> norm_num
+
+/-- the whitening assumption `sqrt(n-1)² = n-1` is satisfiable in the carrier of the examples
+(`n = 2`; over `ℝ` it holds for every `n ≥ 1`) -/
+example : Transc.sqrt (((2 : Nat) : Rat) - 1) * Transc.sqrt (((2 : Nat) : Rat) - 1)
+    = ((2 : Nat) : Rat) - 1 := by
+  norm_num [Transc.sqrt]
 
 /-- **calling forms**: `Transformer::transform(dataset)` projects the records and moves targets and
 weights unchanged; `Predict::predict(dataset)` keeps the records and returns the same projection as
